@@ -58,7 +58,7 @@ impl Default for GenCfg {
     }
 }
 
-pub const MODULE_POOL: [&[&str]; 7] = [&["M"], &["A"], &["A", "B"], &["A", "B", "C"], &["B"], &["A", "C"], &["module"]];
+pub const MODULE_POOL: [&[&str]; 9] = [&["M"], &["A"], &["A", "B"], &["A", "B", "C"], &["B"], &["A", "C"], &["module"], &["string"], &["A", "int32"]];
 
 const DEF_NAMES: [&str; 30] = [
     "S", "T", "U", "V", "W", "X", "Y", "Z", "Foo", "Bar", "s", "t", "foo", "S1", "X_y", "struct", "enum", "interface",
@@ -276,7 +276,8 @@ impl<'a, 'b> Gen<'a, 'b> {
             }
             // member names resolve (or not) from the documented element outwards; module names and
             // scoped member spellings are legal targets too
-            for m in ["a", "b", "x", "id", "name", "S::a", "T::x", "A", "A::B", "M", "Missing::X", "string", "a::b"] {
+            // (also globally scoped targets of a single segment: only modules and primitives live there)
+            for m in ["a", "b", "x", "id", "name", "S::a", "T::x", "A", "A::B", "M", "Missing::X", "string", "a::b", "::A", "::M", "::Missing", "::string"] {
                 targets.push(m.to_owned());
             }
         }
